@@ -205,6 +205,11 @@ def rstmts(ss, ind, style):
             out.append(f"{pad}call {s['name']}({', '.join(rx(a) for a in s['args'])})")
         elif k == 'print':
             out.append(f"{pad}print *, {', '.join(rx(i) for i in s['items'])}")
+        elif k == 'assoc':
+            pairs = ', '.join(f'{n} => {rx(t)}' for n, t in zip(s['names'], s['targets']))
+            out.append(f'{pad}associate ({pairs})')
+            out += rstmts(s['body'], ind + 2, style)
+            out.append(f'{pad}end associate')
         elif k in ('exit', 'cycle', 'return'):
             out.append(pad + k)
         elif k == 'nop':
@@ -518,6 +523,8 @@ class Gen:
             kinds += ['section', 'section']
         if 'fcall' in self.f and self.functions:
             kinds += ['fcall']
+        if 'assoc' in self.f and self.assoc_depth < 2:
+            kinds += ['assoc', 'assoc']
         if d <= 0:
             kinds = [k for k in kinds if k not in ('if', 'do', 'select', 'while')]
         k = rng.choice(kinds)
@@ -602,7 +609,43 @@ class Gen:
             return [assign(V(rng.choice(writable)), self.bounded(op('sum', call(fn['name'], *[self.int_expr(1, scal) for _ in fn['args']]), self.int_leaf(scal))))]
         if k == 'section':
             return self.section_stmt()
+        if k == 'assoc':
+            return self.assoc_stmt(d)
         return []
+
+    def assoc_stmt(self, d):
+        """ASSOCIATE over a scalar variable, an array element and an expression; inside the block the
+        names are used like variables (the selectors' own variables stay usable too: the machine models
+        true association)."""
+        rng = self.rng
+        base = len(self.assoc_names)
+        names, targets, wr, rd = [], [], [], []
+        for i in range(rng.choice([1, 2, 2, 3])):
+            nm = f'z{base + i + 1}'
+            r = rng.random()
+            writable = [v for v in self.int_writable if v not in self.active_loops]
+            if r < 0.4:
+                t = V(rng.choice(writable))
+                wr.append(nm)
+            elif r < 0.75:
+                t = el('ia', self.index('ia', 0, self.int_scalars, simple=True))
+                wr.append(nm)
+            else:
+                t = op('sum', self.int_expr(1, self.int_scalars), N(1))
+            names.append(nm)
+            targets.append(t)
+            rd.append(nm)
+        saved = (list(self.int_writable), list(self.int_scalars))
+        self.assoc_names += names
+        self.int_writable = self.int_writable + wr
+        self.int_scalars = self.int_scalars + rd
+        self.assoc_depth += 1
+        body = self.block(d - 1, rng.randint(1, 3))
+        self.assoc_depth -= 1
+        self.int_writable, self.int_scalars = saved
+        for _ in names:
+            self.assoc_names.pop()
+        return [{'s': 'assoc', 'names': names, 'targets': targets, 'body': body}]
 
     def section_stmt(self):
         rng = self.rng
@@ -646,6 +689,8 @@ class Gen:
         self.real_writable = ['x', 'y']
         self.helpers = []
         self.functions = []
+        self.assoc_names = []
+        self.assoc_depth = 0
         units = []
         if 'call' in self.f:
             units += self.make_helpers()
@@ -679,7 +724,9 @@ class Gen:
         u1 = unit('h1', ['a', 's', 'r'], [decl('a', 'int', 'inout', [(0, 4)]), decl('s', 'int', 'in'), decl('r', 'int', 'out'), decl('q', 'int')], b1)
 
         def call1(g):
-            return [{'s': 'call', 'name': 'h1', 'args': [V('ia'), g.int_expr(1, g.int_scalars_noarr), V(g.rng.choice(['t1', 't2', 'k']))]}]
+            # the intent(in) actual is always a compound expression (a temporary), never a variable that
+            # could alias the intent(out) actual
+            return [{'s': 'call', 'name': 'h1', 'args': [V('ia'), op('sum', g.int_expr(1, g.int_scalars_noarr), N(1)), V(g.rng.choice(['t1', 't2', 'k']))]}]
         hs.append({'unit': u1, 'mkcall': call1})
         # h2(p, q): scalars inout / in, element actual
         u2 = unit('h2', ['p', 'q'], [decl('p', 'int', 'inout'), decl('q', 'int', 'in')],
@@ -780,7 +827,7 @@ def removal_candidates(prog, limit=40):
             if ui == 0 and len(path) == 1 and path[0] < 5:
                 continue
             for mode in ('delete', 'unwrap'):
-                if mode == 'unwrap' and s['s'] not in ('if', 'do', 'while'):
+                if mode == 'unwrap' and s['s'] not in ('if', 'while'):
                     continue
                 p2 = copy.deepcopy(prog)
                 cur = p2['units'][ui]['body']
@@ -909,27 +956,53 @@ def behaviour_check(ctx, label, cases, transform, *, entry='kernel', shrink=True
     return results, fails, legal_inputs
 
 
-def report_failures(ctx, label, cases, results, fails, recheck=None, max_report=12):
-    """Turn failing programs into violations with a normal-form key. recheck(prog, inputs) -> (failed, kind)
-    is used to shrink (statement deletion) before keying; without it the key is built from the program as is."""
-    seen = {}
-    for idx, kind, msg in fails[:max_report]:
+def failure_signature(kind, msg):
+    """Class of a failure: kind + exception type / first diagnostic, digits and paths abstracted."""
+    first = ''
+    for line in msg.splitlines():
+        line = line.strip()
+        if line and not line.startswith(('Traceback', 'File ', '^', '|')) and not re.match(r'^\d+ \|', line):
+            first = line
+            if 'Error' in line:
+                break
+    first = re.sub(r'/[\w/.\-]+', '<path>', first)
+    first = re.sub(r'\d+', 'N', first)
+    if kind == 'output':
+        first = 'output-differs'
+    return f'{kind}:{first[:110]}'
+
+
+def report_failures(ctx, label, cases, results, fails, recheck=None, max_groups=6, rounds=5):
+    """Turn failing programs into violations with a normal-form key: failures are grouped by signature, one
+    representative per group is shrunk by statement deletion (re-running the whole check on the
+    candidates, in batches) and keyed by signature + statement kinds of the shrunk program."""
+    groups = {}
+    for idx, kind, msg in fails:
+        groups.setdefault(failure_signature(kind, msg), []).append((idx, kind, msg))
+    ctx.cover[f'{label}_failure_groups'] = {k: len(v) for k, v in groups.items()}
+    for gi, (sig, members) in enumerate(sorted(groups.items())):
+        idx, kind, msg = min(members, key=lambda m: len(results[m[0]]['text']))
         prog, inputs = cases[idx]
         small = prog
-        if recheck is not None:
-            for _ in range(6):
-                cands = removal_candidates(small, limit=24)
+        if recheck is not None and gi < max_groups:
+            for _ in range(rounds):
+                cands = removal_candidates(small, limit=16)
                 if not cands:
                     break
                 outcome = recheck([(c, inputs) for c in cands])
-                nxt = next((c for c, (f, knd) in zip(cands, outcome) if f and knd == kind), None)
+                nxt = next((c for c, (f, sg) in zip(cands, outcome) if f and sg == sig), None)
                 if nxt is None:
                     break
                 small = nxt
-        key = f'{label}:{kind}:{stmt_kinds(small)}'
-        if key in seen:
-            continue
-        seen[key] = True
-        ctx.violation(key, f'{label}: transformed program {"output differs" if kind == "output" else kind}: {msg[:600]}\n--- original (shrunk) ---\n{render(small)}'
-                           f'--- transformed (unshrunk case) ---\n{results[idx].get("newtext", "")[:3000]}',
+        key = f'{label}:{sig}:{stmt_kinds(small)}'
+        ctx.violation(key, f'{label}: {len(members)} program(s); transformed program {"output differs" if kind == "output" else kind}: {msg[:700]}\n'
+                           f'--- original (shrunk) ---\n{render(small)}--- transformed (unshrunk case) ---\n{results[idx].get("newtext", "")[:3000]}',
                       {'prog': prog, 'inputs': inputs})
+
+
+def make_recheck(ctx, transform, label='shrink'):
+    def recheck(cs):
+        res, fl, _ = behaviour_check(ctx, label, cs, transform)
+        failed = {idx: failure_signature(kind, msg) for idx, kind, msg in fl}
+        return [(i in failed, failed.get(i)) for i in range(len(cs))]
+    return recheck
